@@ -553,6 +553,8 @@ def tk_contract_axioms():
     ]
 
 
+assume("A-plainrefs", "a {KEY} embedded in longer text refers to a value whose str() contains no braces (a section's str() does: recorded finding F28); "
+       "the structure axioms of resolve for strings are stated - and bounded-validated - under this assumption")
 assume("OptTheory.resolve.structure", "structure of confectioner.resolve (bounded-validated): for a string v without ':name:' placeholders resolve(v,o) succeeds iff every "
        "referenced key can be looked up and its value resolves, and reads exactly those keys plus what their values read; for a list/dict it resolves every element")
 
